@@ -127,6 +127,26 @@ CHECKS = {
                      "with another SPI / nonce / (configured) source address, cookie lists; COOKIE-only reply, zero "
                      "DiffieHellman.from_group calls and unchanged table without the exact cookie. Initiator: COOKIE reply "
                      "once / twice / after the real reply, retry byte-compared, session completes with mirror SAs."),
+    'C01': dict(level='model_checking', technique="exhaustive enumeration of configuration pairs and negotiation histories "
+                "between two real endpoints; the two model SADs are compared after every negotiation", engine='world-explorer',
+                text="IKE suites, CHILD suites x modes (ESP/AH, with and without PFS), IPv4/IPv6 x PSK/RSA x initiator, all "
+                     "pairs of differing preference orders (incl. INVALID_KE_PAYLOAD retries), acquire flows at the edges of "
+                     "the entry, and every sequence of up to 2 (thorough: 3) negotiations over {new CHILD, CHILD rekey, IKE "
+                     "rekey} x {A, B} from plain / COOKIE / INVALID_KE starts: after each negotiation the SAs decoded from "
+                     "both daemons' XFRM_MSG_NEWSA bytes must be the same set field by field (SPI, addresses, protocol, "
+                     "mode, algorithms, key bytes, selectors), inbound/outbound selectors reversed, IKE key rings equal, and "
+                     "the initiator-to-responder SA must carry the first KEYMAT keys (ref/keys.py)."),
+    'C05': dict(level='exploration', technique=EX,
+                text="Full header product x payload lists up to length 2 (thorough 3) over 33 payload instances, in clear "
+                     "and inside SK: to_bytes == independent encoder byte for byte, parse maps back, idempotence of "
+                     "serialise-after-parse on every accepted mutated string, unknown non-critical skipped / critical "
+                     "rejected / chain-end edits rejected, to_dict JSON-serialisable and lossless."),
+    'C07': dict(level='exploration', technique=EX,
+                text="Every plaintext length modulo the block size x AES lengths x integrity algorithms x IVs dissected "
+                     "independently (padding, Pad Length, ICV coverage and truncation); every octet x every bit, every "
+                     "truncation / extension and 12 other integrity keys on representative protected messages of 11 "
+                     "exchange kinds must raise a protocol error; every datagram emitted after IKE_SA_INIT in bounded "
+                     "two-endpoint sessions (incl. error replies, collisions, retransmissions) is header + one SK payload."),
 }
 
 # filled in as checks are built; anything in ALL but not in CHECKS is listed under not_applicable
